@@ -50,9 +50,6 @@ pub fn classify(msg: &str, site: &str, class: &str) -> Option<&'static str> {
     if (f == "expr_to_asg_texpr" || f == "io_declaration_statement_to_asg_stmt") && (m.contains("not supported") || m.contains("are not supported")) {
         return Some("C03.unsupported_expression_panics");
     }
-    if f == "bind_typed_parameter_list" && m.contains("You have found a bug in oq3_parser") {
-        return Some("C03.array_parameter_panics");
-    }
     // an integer literal that has no u128 value (a digit outside its radix: 0b123, or >= 2^128)
     if (f == "literal_to_asg_texpr" || f == "negative_int_to_asg_type") && m.contains("called `Option::unwrap()` on a `None` value") {
         return Some("C03.integer_literal_without_value_panics");
